@@ -73,16 +73,21 @@ static void reduceCase(const char* kind, const char* ty, R& red, const VVL& upd,
     vh::Rng r(seed * 131 + tid);
     for (size_t i = 0; i < upd[tid].size(); ++i) { jitter(r); apply(red, fromLog<T>(upd[tid][i]), sign[tid][i]); }
   });
+  // every third case: the number of active threads is lowered between the region and reduce() -- the partial values of
+  // the threads that took part must still be folded in
+  unsigned rthreads = threads;
+  if (threads > 1 && seed % 3 == 0) { rthreads = 1 + (unsigned)((seed / 3) % (threads - 1)); galois::setActiveThreads(rthreads); }
   long long res1 = toLog<T>(red.reduce());
   long long res2 = toLog<T>(red.reduce()); // reduce is idempotent without new updates
   red.reset();
+  galois::setActiveThreads(threads);
   // after reset the reducible holds the identity: one more update must be the whole answer
   galois::on_each([&](unsigned tid, unsigned nt) { if (tid == nt - 1) apply(red, fromLog<T>(afterResetVal), +1); });
   long long res3 = toLog<T>(red.reduce());
   red.reset();
   VVL sg;
   for (auto& s : sign) sg.push_back(VL(s.begin(), s.end()));
-  out->line(Rec().str("k", "reduce").str("kind", kind).str("ty", ty).i("threads", threads).raw("upd", vh::jarr2(upd))
+  out->line(Rec().str("k", "reduce").str("kind", kind).str("ty", ty).i("threads", threads).i("rthreads", rthreads).raw("upd", vh::jarr2(upd))
                 .raw("sign", vh::jarr2(sg)).i("res", res1).i("res2", res2).i("arv", afterResetVal).i("res3", res3));
 }
 
